@@ -111,6 +111,30 @@ func runWinner(c *Ctx) {
 				c.Unknown(key, call.Pos(), "cannot find the error test of the dial")
 				return
 			}
+			// the error that is tested is the dial's own: nothing overwrites it between the dial and the test, otherwise an
+			// established connection can be sent down the failure branch, where nothing closes it
+			overwritten := false
+			cfg.EachNode(func(or NodeRef) {
+				if or == r {
+					return
+				}
+				for _, o := range AssignedObjs(info, or.Node()) {
+					if o == errObj && cfg.Reaches(r, or) {
+						// only assignments that can still reach a test of errObj matter
+						for _, b := range cfg.Blocks {
+							cond, _, _, okc := CondEdges(b)
+							if !okc {
+								continue
+							}
+							if o2, _, okn := NilTest(info, cond); okn && o2 == errObj && cfg.Reaches(or, NodeRef{b, len(b.Nodes) - 1}) {
+								overwritten = true
+							}
+						}
+					}
+				}
+			})
+			c.Check(!overwritten, key+"/error-is-the-dials", call.Pos(), "the tested error is the one Transport.Dial returned",
+				"the error variable of a successful Transport.Dial can be overwritten before it is tested: the established connection then takes the failure branch, is neither elected nor closed, and stays open at the peer for the whole session")
 			// on every path of the success region: close, or an elected hand-over
 			var sends []NodeRef
 			disposed := allPathsHit(cfg, succStart, func(n ast.Node) bool {
@@ -229,6 +253,35 @@ func runWinner(c *Ctx) {
 			c.Check(own.Passed(f, ref, "owner-decided"), fmt.Sprintf("owner/%s/give-up#%d", f.Name, k), ret.Pos(), "the caller gives up only after winning the election itself or taking the winner out of the channel",
 				"the caller returns an error while a dial may already have won: that connection stays in the channel, open and unused")
 		}
+	}
+	// accept side: listeners hand out connections only after the handshake completed (Listen, not ListenEarly): the receiver takes
+	// the first connection it is handed, the dialler the first handshake that completes - with early accept the two can differ
+	{
+		nl, early := 0, ""
+		for _, pkg := range []string{"internal/quictransport", "internal/transferquic", "internal/app", "internal/ice"} {
+			for _, f := range p.FuncsIn(pkg) {
+				fi := f.Info()
+				InspectNoLits(f.Body, func(n ast.Node) bool {
+					call, ok := n.(*ast.CallExpr)
+					if !ok {
+						return true
+					}
+					fn := Callee(fi, call)
+					if fn == nil || fn.Pkg() == nil || fn.Pkg().Path() != "github.com/quic-go/quic-go" {
+						return true
+					}
+					switch fn.Name() {
+					case "Listen", "ListenAddr":
+						nl++
+					case "ListenEarly", "ListenAddrEarly":
+						early = p.Pos(call.Pos()) + " (" + f.Name + ")"
+					}
+					return true
+				})
+			}
+		}
+		c.Check(nl > 0 && early == "", "accept-side/full-handshake-listeners", pd.Pos(), fmt.Sprintf("%d QUIC listeners, all created with Listen (Accept yields completed handshakes only)", nl),
+			"a QUIC listener is created with an early-accept variant at "+early+": Accept then yields connections whose handshake is not complete, so the receiver can pick (first ClientHello) a different connection than the dialler (first completed handshake), and both sides time out in authentication on different connections")
 	}
 	// accept side (receiver): hand-over selects close the loser
 	if rt := p.Func("app.(*snapshotReceiver).runTransfer"); rt != nil {
